@@ -44,6 +44,7 @@ func (a *admDriver) send(t orcTx, open map[int]uint64, tag string) string {
 	beforeFull := a.fullObs()
 	beforeCore := a.coreObs()
 	bz, pkOK, sigOK, _ := a.build(t)
+	nInfos := len(a.lastInfos)
 	now := a.c.Header.Time.Unix()
 	if a.rng.Chance(1, 4) { // CheckTx probe (check state is separate; the deliver state is untouched)
 		cls, prio := a.check(t, a.rng.Chance(1, 3))
@@ -52,6 +53,13 @@ func (a *admDriver) send(t orcTx, open map[int]uint64, tag string) string {
 		if !strings.HasPrefix(cls, "ante:") && cls != "panic" && !strings.HasPrefix(cls, "other") {
 			if !sigOK {
 				a.env.Violate("C13.checktx", "checktx-admitted-forged-signature"+tag, "CheckTx let a create-price tx with an invalid signature into the mempool", a.hist)
+			}
+			cs := map[int]bool{}
+			for _, m := range t.Msgs {
+				cs[m.Creator] = true
+			}
+			if nInfos != len(cs) {
+				a.env.Violate("C13.checktx", "checktx-admitted-unsigned-signer:F-10c", fmt.Sprintf("CheckTx admitted a create-price tx with %d signers but %d SignerInfos", len(cs), nInfos), a.hist)
 			}
 			if _, isVal := a.powers[t.Msgs[0].Creator]; !isVal {
 				a.env.Violate("C13.checktx", "checktx-admitted-nonvalidator", "CheckTx admitted a non-validator's submission", a.hist)
@@ -82,6 +90,22 @@ func (a *admDriver) send(t orcTx, open map[int]uint64, tag string) string {
 	}
 	if !sigOK {
 		a.env.Violate("C13.admit", "admitted-forged-signature"+tag, "admitted a create-price tx whose signature does not verify against the validator's key ("+cls+")", a.hist)
+	}
+	creators := map[int]bool{}
+	for _, m := range t.Msgs {
+		creators[m.Creator] = true
+	}
+	if nInfos != len(creators) {
+		a.env.Violate("C13.admit", "admitted-unsigned-signer:F-10c", fmt.Sprintf("admitted a create-price tx with %d signers but %d SignerInfos: the remaining submissions are nobody's signature (%s)", len(creators), nInfos, cls), a.hist)
+	}
+	hNow := uint64(a.c.Header.Height)
+	for _, m := range t.Msgs {
+		fi := int(m.Feeder) - 1
+		if fi >= 0 && fi < len(s.Feeders) {
+			if f := s.Feeders[fi]; (f.End > 0 && hNow > f.End) || hNow <= f.StartBase {
+				a.env.Violate("C13.admit", "admitted-inactive-feeder", fmt.Sprintf("block %d: admitted a submission for feeder %d which is active only for base blocks %d..%d", hNow, m.Feeder, f.StartBase, f.End), a.hist)
+			}
+		}
 	}
 	seq := map[string]int32{}
 	for i, m := range t.Msgs {
@@ -173,7 +197,29 @@ func (a *admDriver) block() {
 			}
 			m := a.honestMsg(v, fi, base)
 			t := orcTx{Msgs: []orcMsg{m}}
-			switch a.rng.Pick(5, 6, 1, 1, 1) {
+			switch a.rng.Pick(5, 6, 1, 1, 1, 1, 1, 2) {
+			case 7: // exactly at / one past the future limit (block times carry sub-second parts here)
+				for si := range t.Msgs[0].Srcs {
+					for pi := range t.Msgs[0].Srcs[si].Prices {
+						t.Msgs[0].Srcs[si].Prices[pi].Ts = a.c.Header.Time.Unix() + 5 + int64(a.rng.Intn(2))
+					}
+				}
+				a.env.Outcome("mut:ts-boundary")
+			case 5: // two validators' messages in one tx (two signers), both properly signed
+				if v < 50 && len(s.Powers) > 1 && !a.couldFinalize(fi, v) {
+					v2 := (v + 1 + a.rng.Intn(len(s.Powers)-1)) % len(s.Powers)
+					t.Msgs = append(t.Msgs, a.honestMsg(v2, fi, base))
+					a.env.Outcome("shape:two-signers")
+				}
+			case 6: // fewer SignerInfos than signers: the uncovered submissions carry nobody's signature
+				if v < 50 && len(s.Powers) > 1 && a.rng.Bool() && !a.couldFinalize(fi, v) {
+					v2 := (v + 1 + a.rng.Intn(len(s.Powers)-1)) % len(s.Powers)
+					t.Msgs = append(t.Msgs, a.honestMsg(v2, fi, base))
+					t.Infos, t.InfosSet = 1, true
+				} else {
+					t.Infos, t.InfosSet = 0, true
+				}
+				a.env.Outcome("mut:missing-signer-info")
 			case 4: // validator's public key, outsider's signature: must be refused with no state change
 				t.Forge = true
 				a.env.Outcome("mut:forged-signature")
@@ -201,6 +247,112 @@ func (a *admDriver) block() {
 			}
 		}
 	}
+}
+
+// subSecondStep: 1-5 s ahead, landing on a chosen sub-second part (0, 1 ms, just below / at / just
+// above half a second, 999 ms) so that floor, round and ceil of the block time all differ.
+func subSecondStep(rng *RNG, cur time.Time) time.Duration {
+	fracs := []time.Duration{0, time.Millisecond, 499 * time.Millisecond, 500 * time.Millisecond, 501 * time.Millisecond, 999 * time.Millisecond}
+	want := fracs[rng.Intn(len(fracs))]
+	curFrac := time.Duration(cur.Nanosecond())
+	d := time.Duration(1+rng.Intn(5))*time.Second + want - curFrac
+	if d <= 0 {
+		d += time.Second
+	}
+	return d
+}
+
+// expirySweep: a feeder whose EndBlock lies at every admissible offset after the base block of its
+// last round (MaxNonce … Interval-1, i.e. including exactly basedBlock+MaxNonce, where the round is
+// closed by the expiry path and not by the window path), with the last round finalized or left
+// unfinalized; before, at and after the end every validator keeps submitting with its next nonce.
+// Nothing may be admitted for the feeder once it is no longer active.
+func expirySweep(env *Env) {
+	const mn, iv, sb = 3, 7, 2
+	for off := uint64(mn); off < iv; off++ {
+		for _, fin := range []bool{false, true} {
+			end := uint64(sb) + iv + off
+			spec := orcSpec{Powers: []int64{10, 10, 10}, MaxNonce: mn, ThA: 2, ThB: 3, MaxDetID: 5, MaxSize: 100,
+				Sources: [][2]bool{{true, true}}, Rules: [][]uint64{{0}, {1}}, TokenDec: []int32{0},
+				Feeders: []orcFeeder{{Token: 1, Rule: 2, StartRound: 2, StartBase: sb, Interval: iv, End: end}}, GenNext: []uint64{2}, GenPrice: []string{"1"}}
+			o := newOrc(env, 131500+off*2+uint64(b2i(fin)), spec, nil)
+			o.emitSetup()
+			a := &admDriver{orcDriver: newOrcDriver(o, NewRNG(off)), quota: map[string]int{}}
+			for uint64(o.c.Header.Height) <= end+3 {
+				h := uint64(o.c.Header.Height)
+				open := map[int]uint64{}
+				if b := spec.openBase(0, h); b > 0 {
+					open[0] = b
+					a.roundLog(0, b)
+				}
+				base := uint64(sb)
+				if h > sb+iv {
+					base = sb + iv
+				}
+				for v := 0; v < 3; v++ {
+					lastRound := base == sb+iv
+					if h <= sb || (lastRound && !fin && v > 0 && h <= end) {
+						continue // the last round stays one report short of a final price
+					}
+					n, _ := a.nonceOf(v, 1)
+					m := orcMsg{Creator: v, Feeder: 1, Based: base, Nonce: n + 1, Srcs: []orcSource{{ID: 1, Prices: []orcPrice{{Price: "2", Dec: 0, Ts: o.c.Header.Time.Unix(), DetID: fmt.Sprint(9 + n)}}}}}
+					cls := a.send(orcTx{Msgs: []orcMsg{m}}, open, "")
+					if h > end {
+						env.Outcome("after-end:" + cls)
+					}
+				}
+				if _, halted := a.endBlock(); halted {
+					break
+				}
+				a.idsMonitor(uint64(o.c.Header.Height), nil)
+				if !a.commitBegin(2 * time.Second) {
+					break
+				}
+			}
+			env.Report.Histories++
+		}
+	}
+}
+
+// directedC13SignerInfos: regression for F-10c (repaired in the repo) — (1) a tx with the messages
+// of validators 0 and 1 but only validator 0's SignerInfo (signatures [sig_0, junk]); (2) a tx with
+// validator 2's message and no SignerInfo at all (signatures [junk]). Both must be refused by
+// CheckTx and DeliverTx without any state change.
+func directedC13SignerInfos(env *Env) {
+	spec := orcSpec{Powers: []int64{10, 10, 10}, MaxNonce: 3, ThA: 2, ThB: 3, MaxDetID: 5, MaxSize: 100,
+		Sources: [][2]bool{{true, true}}, Rules: [][]uint64{{0}, {1}}, TokenDec: []int32{0},
+		Feeders: []orcFeeder{{Token: 1, Rule: 2, StartRound: 2, StartBase: 2, Interval: 7}}, GenNext: []uint64{2}, GenPrice: []string{"1"}}
+	o := newOrc(env, 131314, spec, nil)
+	o.emitSetup()
+	a := &admDriver{orcDriver: newOrcDriver(o, NewRNG(2)), quota: map[string]int{}}
+	for i := 0; i < 2; i++ {
+		a.endBlock()
+		a.commitBegin(2 * time.Second)
+	}
+	open := map[int]uint64{0: 2}
+	a.roundLog(0, 2)
+	mk := func(v int) orcMsg {
+		return orcMsg{Creator: v, Feeder: 1, Based: 2, Nonce: 1, Srcs: []orcSource{{ID: 1, Prices: []orcPrice{{Price: "3", Dec: 0, Ts: o.c.Header.Time.Unix(), DetID: "9"}}}}}
+	}
+	for i, t := range []orcTx{
+		{Msgs: []orcMsg{mk(0), mk(1)}, Infos: 1, InfosSet: true},
+		{Msgs: []orcMsg{mk(2)}, Infos: 0, InfosSet: true},
+	} {
+		cc, _ := a.check(t, false)
+		env.Outcome(fmt.Sprintf("directed-signerinfos-%d-checktx:%s", i, cc))
+		env.Eval("C13.checktx")
+		if cc == "ok" {
+			env.Violate("C13.checktx", "checktx-admitted-unsigned-signer:F-10c", "CheckTx admitted a create-price tx with fewer SignerInfos than signers", o.hist)
+		}
+		cls := a.send(t, open, "")
+		env.Outcome(fmt.Sprintf("directed-signerinfos-%d:%s", i, cls))
+	}
+	pr, _ := o.c.App.OracleKeeper.GetPriceTRLatest(o.ctx(), 1)
+	env.Eval("C13.admit")
+	if pr.Price == "3" {
+		env.Violate("C13.admit", "price-set-by-unsigned-submissions:F-10c", "only validator 0 signed; the round's price was set to 3 by the unsigned submissions of validators 1 and 2", o.hist)
+	}
+	env.Report.Histories++
 }
 
 // directedC13Forged: regression for F-10a (repaired in the repo) — an outsider forges the
@@ -251,6 +403,8 @@ func domOracleC13(env *Env) error {
 	env.Report.Domain = "oracle_adm"
 	if env.Int("directed", 1) == 1 {
 		directedC13Forged(env)
+		directedC13SignerInfos(env)
+		expirySweep(env)
 	}
 	for hi := 0; hi < n; hi++ {
 		spec := genOrcSpec(rng, false)
@@ -267,7 +421,7 @@ func domOracleC13(env *Env) error {
 			}
 			a.applyUpdates(upd)
 			a.idsMonitor(uint64(o.c.Header.Height), nil)
-			if !a.commitBegin(time.Duration(1+rng.Intn(5)) * time.Second) {
+			if !a.commitBegin(subSecondStep(rng, o.c.Header.Time)) {
 				env.Violate("C13.halt", "halt", "Commit/BeginBlock panicked: "+o.halted, o.hist)
 				break
 			}
